@@ -736,6 +736,9 @@ class EngineRun:
             st["store"].upsert_nodes(op["gid"], [Node(id=n["id"], label=n.get("label", ""), attrs=({"tags": list(n["tags"])} if n.get("tags") else {}))])
         elif k == "add_episode":
             st["mem_index"].add(make_episode(op["ep"]))
+        elif k == "clear_memory":
+            # the memory is emptied through the index's own API (a re-import, a reset between sessions); refills follow as add_episode
+            st["mem_index"].clear()
         elif k == "set_cfg":
             if op.get("delete"):
                 _del_path(self.raw_cfg, list(op["path"]))
